@@ -429,6 +429,18 @@ public:
 
    virtual uint32 TemplatedTypeCode() const {return B_BOOL_TYPE;}
 
+   // Overridden so that every nonzero byte is read as (true), the same way MessageField::SingleUnflatten() reads a
+   // single bool.  Copying the bytes directly into an array of bool would be undefined behavior for byte-values other than 0 or 1.
+   virtual status_t TemplatedUnflatten(DataUnflattener & unflat)
+   {
+      _data.Clear();  // necessary to ensure the Queue is normalized below
+
+      const uint32 numItems = unflat.GetNumBytesAvailable();  // bools are always flattened to one uint8 each
+      MRETURN_ON_ERROR(_data.EnsureSize(numItems, true));
+      for (uint32 i=0; i<numItems; i++) _data[i] = (unflat.ReadByte() != 0);
+      return unflat.GetStatus();
+   }
+
    virtual const char * GetFormatString() const {return "%i";}
 
    virtual AbstractDataArrayRef Clone() const;
